@@ -887,7 +887,7 @@ def rule_stringify(model):
         return out
     groups = []
     for anchor in (ren, rb, hq):
-        members = closure(anchor) if anchor is rb else [anchor]
+        members = closure(anchor) if anchor in (rb, hq) else [anchor]
         groups.append((anchor, members))
     for anchor, members in groups:
         for fi in members:
